@@ -418,6 +418,36 @@ struct GenCase {
     resp_len: usize,
     /// the call is made through clones of the configured client and server
     via_clone: bool,
+    /// afterwards the same client (or a clone of it) makes a second call whose messages are 8
+    /// bytes, within every limit: whatever happened to the first call must not touch it
+    then_small: bool,
+}
+
+/// Two servers behind one address: the second one answers once `use_b` is set.
+#[derive(Clone)]
+struct Switch<S> {
+    a: S,
+    b: S,
+    use_b: std::sync::Arc<std::sync::atomic::AtomicBool>,
+}
+
+impl<S, R> tower_service::Service<R> for Switch<S>
+where
+    S: tower_service::Service<R>,
+{
+    type Response = S::Response;
+    type Error = S::Error;
+    type Future = S::Future;
+    fn poll_ready(&mut self, _cx: &mut Context<'_>) -> Poll<Result<(), S::Error>> {
+        Poll::Ready(Ok(()))
+    }
+    fn call(&mut self, req: R) -> S::Future {
+        if self.use_b.load(Ordering::SeqCst) {
+            self.b.call(req)
+        } else {
+            self.a.call(req)
+        }
+    }
 }
 
 fn gen_body(c: &GenCase, ch: &Chooser) -> Outcome {
@@ -434,8 +464,18 @@ fn gen_body(c: &GenCase, ch: &Chooser) -> Outcome {
     if c.via_clone {
         server = server.clone();
     }
+    // the second call's server: same limits, 8-byte response
+    let script_b = Script { initial_md: vec![], msgs: vec![vec![0x66; 8]], end: None, handler_err: false, bidi: BidiMode::ReadAll, disable_compression: false, exact_hint: false };
+    let (mut server_b, _log_b) = new_server(script_b, ch, false);
+    if let Some(l) = c.server.0 {
+        server_b = server_b.max_decoding_message_size(l);
+    }
+    if let Some(l) = c.server.1 {
+        server_b = server_b.max_encoding_message_size(l);
+    }
+    let use_b = std::sync::Arc::new(std::sync::atomic::AtomicBool::new(false));
     let capture = std::sync::Arc::new(std::sync::Mutex::new(Capture::default()));
-    let direct = Direct { svc: server, ch: ch.clone(), req_chunking: Chunking::Fixed(vec![]), resp_chunking: Chunking::Fixed(vec![]), capture };
+    let direct = Direct { svc: Switch { a: server, b: server_b, use_b: use_b.clone() }, ch: ch.clone(), req_chunking: Chunking::Fixed(vec![]), resp_chunking: Chunking::Fixed(vec![]), capture };
     let mut client = EchoClient::new(direct);
     if let Some(l) = c.client.0 {
         client = client.max_decoding_message_size(l);
@@ -482,6 +522,19 @@ fn gen_body(c: &GenCase, ch: &Chooser) -> Outcome {
             }
         } else if view.error.is_some() || view.msgs.iter().map(|m| m.len()).collect::<Vec<_>>() != vec![c.resp_len] {
             o.violate("generated-limit-wrongly-refused", format!("everything is within the limits but the caller saw {:?} / {:?}", view.msgs.iter().map(|m| m.len()).collect::<Vec<_>>(), view.error.as_ref().map(crate::env::fmt_status)));
+        }
+    }
+    if c.then_small {
+        use_b.store(true, Ordering::SeqCst);
+        let mut client2 = if c.via_clone { client.clone() } else { client };
+        match crate::env::spin_block_on(client_call(&mut client2, c.shape, vec![vec![0x44u8; 8]], &vec![], false, ch, |_| {}), 200_000) {
+            Err(_) => o.violate("second-call-after-refusal:stall", "the call made after the first one did not complete"),
+            Ok(v2) => {
+                o.obs.push_str(&format!(" | second call: msgs={:?} err={:?}", v2.msgs.iter().map(|m| m.len()).collect::<Vec<_>>(), v2.error.as_ref().map(|e| e.code())));
+                if v2.error.is_some() || v2.msgs.iter().map(|m| m.len()).collect::<Vec<_>>() != vec![8] {
+                    o.violate("second-call-after-refusal", format!("after the first call (caller saw {:?}) a call with 8-byte messages, within every limit, gave {:?} / {:?}", view.error.as_ref().map(|e| e.code()), v2.msgs.iter().map(|m| m.len()).collect::<Vec<_>>(), v2.error.as_ref().map(crate::env::fmt_status)));
+                }
+            }
         }
     }
     o
@@ -570,8 +623,9 @@ fn gen_cases() -> Vec<GenCase> {
         for server in limits {
             for client in limits {
                 for (req_len, resp_len) in [(8usize, 8usize), (17, 8), (8, 17), (16, 16)] {
-                    out.push(GenCase { shape, server, client, req_len, resp_len, via_clone: false });
-                    out.push(GenCase { shape, server, client, req_len, resp_len, via_clone: true });
+                    out.push(GenCase { shape, server, client, req_len, resp_len, via_clone: false, then_small: false });
+                    out.push(GenCase { shape, server, client, req_len, resp_len, via_clone: true, then_small: false });
+                    out.push(GenCase { shape, server, client, req_len, resp_len, via_clone: (req_len + resp_len) % 2 == 1, then_small: true });
                 }
             }
         }
@@ -610,7 +664,7 @@ pub fn property(tier: Tier) -> Property {
     let gen = Section::new(
         "generated-limits",
         Config::default(),
-        "cases: generated server and generated client, each configured through its builder with {no limit, decoding limit 16, encoding limit 16, both} (16 combinations) x call shape x (request, response) message lengths {(8,8),(17,8),(8,17),(16,16)} x {the configured client and server themselves, clones of them}, in-process; oracle: a request over the client's encoding limit or the server's decoding limit never reaches the handler; a response over the server's encoding limit or the client's decoding limit ends the call with OUT_OF_RANGE; anything within every limit on its path is delivered. Non-trivial = some limit is exceeded.",
+        "cases: generated server and generated client, each configured through its builder with {no limit, decoding limit 16, encoding limit 16, both} (16 combinations) x call shape x (request, response) message lengths {(8,8),(17,8),(8,17),(16,16)} x {the configured client and server themselves, clones of them} x {one call, the call followed by a second one with 8-byte messages on the same client (or its clone)}, in-process; oracle: a request over the client's encoding limit or the server's decoding limit never reaches the handler; a response over the server's encoding limit or the client's decoding limit ends the call with OUT_OF_RANGE; anything within every limit on its path is delivered. Non-trivial = some limit is exceeded.",
         gen_cases(),
         |c: &GenCase| format!("{c:?}"),
         gen_body,
